@@ -65,6 +65,16 @@ def main():
             return orig_update()
 
         be.update_keys = slow_update
+        # ... and before the flush at session exit (the records of a buffered handle reach the file here: if the lock
+        # were released first, the delay lets another process in)
+        orig_flush = be.flush
+
+        def slow_flush():
+            if rng.random() < 0.5:
+                time.sleep(rng.random() * spec["max_sleep"])
+            return orig_flush()
+
+        be.flush = slow_flush
 
     def nap(p=0.5):
         if rng.random() < p:
